@@ -8,7 +8,7 @@
     [C04_sufficient_refuted] below); frame, numbering and error clauses are proved. *)
 From Coq Require Import List NArith String Bool.
 From V Require Import Base.Strings Base.Result Model.Registry Model.Derives Model.Equal
-  Proofs.GenProofs Proofs.DedupProofs.
+  Model.DedupSpec Proofs.GenProofs Proofs.DedupProofs Proofs.DedupGroups.
 Import ListNotations.
 Open Scope string_scope.
 
@@ -82,3 +82,95 @@ Proof.
   exists 0%nat, 2%nat. eexists. eexists. repeat split; try (vm_compute; reflexivity). discriminate.
 Qed.
 Print Assumptions C04_sufficient_refuted.
+
+(** *** the clauses above tied to the registry: [m] is THE groups map of the pass
+    (characterised by C03_dedup_groups); positions are list positions of [r] / [r']. *)
+
+(** minimality: the path of an entry changes iff it is namespaced and its path family was
+    split into at least two groups *)
+Theorem C04_minimal :
+  forall r r', ensure_unique r = Ok r' ->
+  exists m, build_groups r = Ok m /\
+    forall n e e', nth_error r n = Some e -> nth_error r' n = Some e' ->
+      (t_path (snd e') <> t_path (snd e) <->
+       namespace (t_path (snd e)) <> [] /\
+       exists gs, In (t_path (snd e), gs) m /\ (2 <= List.length gs)%nat).
+Proof. exact ensure_unique_minimal. Qed.
+Print Assumptions C04_minimal.
+
+(** ... and then the new path is the old one with the 1-based index of the entry's group
+    appended to the last segment *)
+Theorem C04_renamed_path :
+  forall r r', ensure_unique r = Ok r' ->
+  exists m, build_groups r = Ok m /\
+    forall n e e' gs, nth_error r n = Some e -> nth_error r' n = Some e' ->
+      namespace (t_path (snd e)) <> [] -> In (t_path (snd e), gs) m -> (2 <= List.length gs)%nat ->
+      exists k, group_index (N.of_nat n) gs 1%N = Some k /\
+                t_path (snd e') = rename_last (t_path (snd e)) k.
+Proof. exact ensure_unique_renamed_path. Qed.
+Print Assumptions C04_renamed_path.
+
+(** the new path of every position, all cases at once *)
+Theorem C04_new_path_cases :
+  forall r r', ensure_unique r = Ok r' ->
+  exists m, build_groups r = Ok m /\
+    forall n e e', nth_error r n = Some e -> nth_error r' n = Some e' ->
+      (namespace (t_path (snd e)) = [] /\ t_path (snd e') = t_path (snd e)) \/
+      (namespace (t_path (snd e)) <> [] /\
+       exists gs, In (t_path (snd e), gs) m /\
+         ((List.length gs < 2)%nat /\ t_path (snd e') = t_path (snd e) \/
+          (2 <= List.length gs)%nat /\
+          exists k, group_index (N.of_nat n) gs 1%N = Some k /\
+                    t_path (snd e') = rename_last (t_path (snd e)) k)).
+Proof. exact ensure_unique_path. Qed.
+Print Assumptions C04_new_path_cases.
+
+(** two entries that shared a namespaced path share one after the pass iff they are members of
+    one group *)
+Theorem C04_same_group_iff_same_path :
+  forall r r', ensure_unique r = Ok r' ->
+  exists m, build_groups r = Ok m /\
+    forall i j ei ej ei' ej',
+      nth_error r i = Some ei -> nth_error r j = Some ej ->
+      nth_error r' i = Some ei' -> nth_error r' j = Some ej' ->
+      t_path (snd ei) = t_path (snd ej) -> namespace (t_path (snd ei)) <> [] ->
+      (t_path (snd ei') = t_path (snd ej') <->
+       exists gs g, In (t_path (snd ei), gs) m /\ In g gs /\ In (N.of_nat i) g /\ In (N.of_nat j) g).
+Proof. exact ensure_unique_same_group_iff. Qed.
+Print Assumptions C04_same_group_iff_same_path.
+
+Theorem C04_same_group_same_path :
+  forall r r' m i j ei ej ei' ej' gs g,
+    ensure_unique r = Ok r' -> build_groups r = Ok m ->
+    nth_error r i = Some ei -> nth_error r j = Some ej ->
+    nth_error r' i = Some ei' -> nth_error r' j = Some ej' ->
+    In (t_path (snd ei), gs) m -> In g gs -> In (N.of_nat i) g -> In (N.of_nat j) g ->
+    t_path (snd ei') = t_path (snd ej').
+Proof. exact ensure_unique_same_group_same_path. Qed.
+Print Assumptions C04_same_group_same_path.
+
+Theorem C04_groups_separated :
+  forall r r' m i j ei ej ei' ej' gs gi gj,
+    ensure_unique r = Ok r' -> build_groups r = Ok m ->
+    nth_error r i = Some ei -> nth_error r j = Some ej ->
+    nth_error r' i = Some ei' -> nth_error r' j = Some ej' ->
+    In (t_path (snd ei), gs) m -> In gi gs -> In gj gs -> In (N.of_nat i) gi -> In (N.of_nat j) gj ->
+    gi <> gj -> t_path (snd ei') <> t_path (snd ej').
+Proof. exact ensure_unique_groups_separated. Qed.
+Print Assumptions C04_groups_separated.
+
+(** "split into >= 2 groups" in terms of the comparison alone: some position carrying the path
+    is judged different ([Ok false]) from the FIRST position carrying it ... *)
+Theorem C04_split_iff_unequal_member :
+  forall r m p gs, build_groups r = Ok m -> In (p, gs) m ->
+    ((2 <= List.length gs)%nat <->
+     exists j, entry_at r j p /\ types_equal_res r j (group_first (hd [] gs)) = Ok false).
+Proof. exact dedup_split_iff. Qed.
+Print Assumptions C04_split_iff_unequal_member.
+
+(** ... where [group_first (hd [] gs)] is the least position carrying the path *)
+Theorem C04_first_member_is_least :
+  forall r m p gs i, build_groups r = Ok m -> In (p, gs) m -> entry_at r i p ->
+    (group_first (hd [] gs) <= i)%N.
+Proof. exact dedup_first_least. Qed.
+Print Assumptions C04_first_member_is_least.
